@@ -9,6 +9,15 @@
      2  stacked scenario (shared iterator over cached datastore): predicate checks only.
      3  end-to-end scenario: decided by the driver (PropFail), nothing to do here. *)
 
+(* Cross-check of extraction: with ORACLE_DUMP=<file> the values the EXTRACTED model computes for
+   every direct scenario (per operation: result / status / event codes, a checksum of the returned
+   tuple, which keys are cached and how long the entries are; at the end the number and total length
+   of the cache writes) are appended to that file; bin/coqreplay_c09.py recomputes the same numbers
+   inside Coq with vm_compute from the same record file. *)
+let dump_chan = match Sys.getenv_opt "ORACLE_DUMP" with
+  | Some p when p <> "" -> Some (open_out_gen [Open_append; Open_creat] 0o644 p)
+  | _ -> None
+
 let tuple_of (v : value) : tuple =
   match as_list v with
   | [o; r; u; cn; cc; ts] ->
@@ -79,6 +88,14 @@ let show_obs_entry (v : value) : int * string =
   | [k; _; _] -> (as_int k, "unknown-entry-type")
   | _ -> (-1, "?")
 
+let sumb (l : n list) = List.fold_left (fun a x -> a + int_of_n x) 0 l
+let chk (t : tuple) =
+  sumb t.t_obj + 3 * sumb t.t_rel + 5 * sumb t.t_user + 7 * sumb t.t_cname + 11 * sumb t.t_cctx + 13 * int_of_n t.t_ts + 1
+let rcode (r : res) : int list = match r with
+  | RItem t -> [0; chk t] | RDone -> [1; 0] | RErr ECancel -> [2; 0] | RErr EDeadline -> [3; 0] | RErr EOther -> [4; 0]
+let elen (e : centry) = match e with CE1 (r, _) -> List.length r | CE2 (m, _) -> List.length m
+let nn x = if x < 0 then 99 else x
+
 let rec is_prefix (a : string list) (b : string list) = match a, b with
   | [], _ -> true
   | x :: a', y :: b' -> x = y && is_prefix a' b'
@@ -86,7 +103,7 @@ let rec is_prefix (a : string list) (b : string list) = match a, b with
 
 let nth_iter st i = nth_error (st_iters st) (nat_of_int i)
 
-let direct (_variant : int) (max : int) (qs : value list) (ops : value list) (writes : value list)
+let direct (id : string) (_variant : int) (max : int) (qs : value list) (ops : value list) (writes : value list)
     (leftover : int) (hung : int) : string =
   let var_of v = if v = 2 then V2 else V1 in
   let queries = Array.of_list (List.map query_of qs) in
@@ -106,8 +123,11 @@ let direct (_variant : int) (max : int) (qs : value list) (ops : value list) (wr
   let used : (int * int) list ref = ref [] in   (* (key, variant) pairs that were opened *)
   let niter = ref 0 in
   let opno = ref 0 in
+  let dump : int list ref = ref [] in
+  let emit l = dump := List.rev_append l !dump in
   let check_mask (m : value) =
     let mm = model_mask () in
+    emit [mm; List.fold_left (fun a (_, e) -> a + elen e + 1) 0 (st_cache !st)];
     if mm <> as_int m then diff (Printf.sprintf "op %d: cache keys present model=%d impl=%d" !opno mm (as_int m)) in
   let finish_waiters (owner : int) : int list =
     (* every iterator that joined owner's singleflight call returns now *)
@@ -133,6 +153,7 @@ let direct (_variant : int) (max : int) (qs : value list) (ops : value list) (wr
       let expect = match o with
         | OOpened (true, _) -> 0 | OOpened (false, true) -> 2 | OOpened (false, false) -> 1
         | OOpenErr ECancel -> 3 | OOpenErr EDeadline -> 4 | OOpenErr EOther -> 5 | _ -> -1 in
+      emit [nn expect + 1];
       if expect <> as_int status then
         diff (Printf.sprintf "op %d: open status model=%d impl=%d (0 hit,1 miss,2 bypass,3-5 error)" !opno expect (as_int status));
       let id = !niter in
@@ -146,6 +167,7 @@ let direct (_variant : int) (max : int) (qs : value list) (ops : value list) (wr
       let mop = if code = "1" then ONext (nat_of_int i, ctx_of (as_int ctx)) else OHead (nat_of_int i, ctx_of (as_int ctx)) in
       let (st', o) = step !st mop in
       st := st';
+      emit (match o with ORes x -> rcode x | _ -> [9; 0]);
       let ms = match o with ORes x -> show_res x | _ -> "no-such-iterator" in
       let os = show_obs r in
       if ms <> os then diff (Printf.sprintf "op %d: %s(%d) model=%s impl=%s" !opno (if code = "1" then "Next" else "Head") i ms os);
@@ -179,6 +201,7 @@ let direct (_variant : int) (max : int) (qs : value list) (ops : value list) (wr
         | Some (IHit _) -> 0
         | Some (IBypass (_, inn, _)) -> if inn.in_stopped then 0 else 1
         | _ -> -1 in
+      emit [nn expect];
       if expect <> as_int ev then
         diff (Printf.sprintf "op %d: Stop(%d) event model=%d impl=%d (0 none,1 inner stopped,2 goroutine waits at Head,9 timeout)" !opno i expect (as_int ev));
       Hashtbl.replace it_stopped i true;
@@ -202,14 +225,16 @@ let direct (_variant : int) (max : int) (qs : value list) (ops : value list) (wr
            else (match nth_iter !st i with
                | Some (IMiss m') -> (match mi_phase m' with PBgWait _ -> 0 | _ -> 2)
                | _ -> -1) in
+         let mw = if fin then finish_waiters i else [] in
+         emit (rcode x @ [nn expect; List.length mw]);
          if expect <> as_int ev then
            diff (Printf.sprintf "op %d: background step of %d: event model=%d impl=%d (0 joined another drain,1 finished,2 next call)" !opno i expect (as_int ev));
-         let mw = if fin then finish_waiters i else [] in
          let ow = List.sort compare (List.map as_int (as_list waiters)) in
          if mw <> ow then
            diff (Printf.sprintf "op %d: iterators released by the end of drain %d: model=[%s] impl=[%s]" !opno i
                    (String.concat "," (List.map string_of_int mw)) (String.concat "," (List.map string_of_int ow)))
-       | _ -> diff (Printf.sprintf "op %d: the implementation made a background call on iterator %d (%s) where the model has none" !opno i (show_obs r)));
+       | _ -> emit [9; 0; 99; 0];
+         diff (Printf.sprintf "op %d: the implementation made a background call on iterator %d (%s) where the model has none" !opno i (show_obs r)));
       check_mask mask
     | [I "5"; marker; whenv; key; mask] ->
       let now = st_clock !st in
@@ -219,14 +244,18 @@ let direct (_variant : int) (max : int) (qs : value list) (ops : value list) (wr
         | _ -> (match alist_get (n_of_int (as_int key)) (st_cache !st) with
             | Some (CE1 (_, t)) -> t | Some (CE2 (_, t)) -> t | None -> n_of_int nowi) in
       let (st', _) = step !st (OInval (n_of_int (as_int marker), ts)) in
-      st := st'; check_mask mask
+      st := st'; emit [0]; check_mask mask
     | [I "6"; key; mask] ->
       let (st', _) = step !st (OEvict (n_of_int (as_int key))) in
-      st := st'; check_mask mask
+      st := st'; emit [0]; check_mask mask
     | [I "7"; mask] ->
       let (st', _) = step !st OCancelServer in
-      st := st'; check_mask mask
+      st := st'; emit [0]; check_mask mask
     | _ -> diff (Printf.sprintf "op %d: malformed operation record" !opno)) ops;
+  emit [List.length (st_writes !st); List.fold_left (fun a ((_, e), _) -> a + elen e) 0 (st_writes !st)];
+  (match dump_chan with
+   | Some ch -> output_string ch (id ^ " " ^ String.concat " " (List.map string_of_int (List.rev !dump)) ^ "\n"); Stdlib.flush ch
+   | None -> ());
   (* cache writes, in order *)
   let mws = List.map (fun ((k, e), _) -> (int_of_n k, show_entry e)) (st_writes !st) in
   let ows = List.map show_obs_entry writes in
@@ -331,10 +360,10 @@ let admission (nreq : int) (creator_dead : bool) (open_err : int) (outs : int li
   else if List.for_all aout_ok rets then "OK"
   else "PROP a request with a live context over a healthy datastore was refused its iterator"
 
-let f _id vs =
+let f id vs =
   match vs with
   | [I "1"; variant; max; qs; ops; writes; leftover; hung] ->
-    direct (as_int variant) (as_int max) (as_list qs) (as_list ops) (as_list writes) (as_int leftover) (as_int hung)
+    direct id (as_int variant) (as_int max) (as_list qs) (as_list ops) (as_list writes) (as_int leftover) (as_int hung)
   | [I "2"; max; q; _script; clients; sd; second; writes; hung] ->
     stacked (as_int max) q (as_list clients) (as_bool sd) (as_list second) (as_list writes) (as_int hung)
   | I "3" :: _ -> "OK"
